@@ -620,6 +620,13 @@ class Exec:
             raise Unsupported("arithmetic on tuple", node)
         if not (self.spec or self.pure):
             a, b = self.narrow(st, a), self.narrow(st, b)
+            # IEEE specials: inf/nan arithmetic is modelled for + - % //, anything else is out of the subset
+            # (never a made-up TypeError: a modelled failure Python does not have would be a false alarm)
+            spec_a, spec_b = z3.simplify(Z.is_special(a)), z3.simplify(Z.is_special(b))
+            if not (z3.is_false(spec_a) and z3.is_false(spec_b)):
+                may = st.feasible(z3.And(z3.Or(spec_a, spec_b), z3.Or(Z.is_num(a), Z.is_special(a)), z3.Or(Z.is_num(b), Z.is_special(b))))
+                if may:
+                    return self.binop_special(st, op, a, b, node)
         bothnum = z3.And(Z.is_num(a), Z.is_num(b))
         if isinstance(op, ast.Add):
             if self.spec and not z3.is_true(z3.simplify(z3.Or(Z.is_s(a), Z.is_s(b)))):
@@ -712,6 +719,38 @@ class Exec:
                            z3.Implies(z3.And(Z.num(a) == 0, Z.num(b) > 0), t == 0))
             return [(s3, Z.mk_r(t))]
         raise Unsupported("binary operator " + type(op).__name__, node)
+
+    def binop_special(self, st, op, a, b, node):
+        """float arithmetic when an operand may be +-inf/nan (both operands numeric or special)"""
+        either = z3.Or(Z.is_special(a), Z.is_special(b))
+        outs = []
+        st_s, st_n = self.branch(st, either)
+        if st_n is not None:
+            saved = self.spec
+            # finite case: ordinary path (re-enter with the specials excluded)
+            a2 = self.narrow(st_n, a, True)
+            b2 = self.narrow(st_n, b, True)
+            if z3.is_false(z3.simplify(Z.is_special(a2))) and z3.is_false(z3.simplify(Z.is_special(b2))):
+                outs.extend(self.binop(st_n, op, a2, b2, node))
+            else:
+                raise Unsupported("arithmetic on a value that may be inf/nan: " + ast.unparse(node), node)
+        if st_s is not None:
+            nan_in = z3.Or(Z.is_nan(a), Z.is_nan(b))
+            pa, na_, pb, nb = Z.is_pinf(a), Z.is_ninf(a), Z.is_pinf(b), Z.is_ninf(b)
+            if isinstance(op, ast.Add):
+                res = z3.If(z3.Or(nan_in, z3.And(pa, nb), z3.And(na_, pb)), Z.NAN, z3.If(z3.Or(pa, pb), Z.PINF, Z.NINF))
+            elif isinstance(op, ast.Sub):
+                res = z3.If(z3.Or(nan_in, z3.And(pa, pb), z3.And(na_, nb)), Z.NAN, z3.If(z3.Or(pa, nb), Z.PINF, Z.NINF))
+            elif isinstance(op, ast.Mod):
+                # inf % y is nan; x % +-inf is x or the infinity depending on signs: only the first form is modelled
+                ok = self.known(st_s, z3.Or(Z.is_special(a)))
+                if not ok:
+                    raise Unsupported("finite % infinity", node)
+                res = Z.NAN
+            else:
+                raise Unsupported("operator %s on inf/nan" % type(op).__name__, node)
+            outs.append((st_s, z3.simplify(res)))
+        return outs
 
     def concat_lists(self, st, a, b, kind):
         h = st.heap
